@@ -1798,11 +1798,30 @@ insert_list:
         thread_interrupt(th, error_number); // may update q
     }
 */
+    // Lock the thread at the head of a wait queue. The head is looked up and
+    // locked under the queue's own lock: a thread that is in the queue cannot
+    // have ended, whereas a pointer read without that lock may belong to a
+    // thread that another vCPU has resumed meanwhile and that has run to its
+    // end (its struct lives on its stack, which is gone by then).
+    // The usual order is thread lock before queue lock, hence only try_lock().
+    static thread* lock_head(thread_list* q)
+    {
+        while (q->node) {
+            {
+                SCOPED_LOCK(q->lock);
+                auto th = q->node;
+                if (!th) return nullptr;
+                if (th->lock.try_lock() == 0) return th;
+            }
+            spin_wait();
+        }
+        return nullptr;
+    }
     struct ScopedLockHead
     {
         thread* _th;
         ScopedLockHead(waitq* waitq) :
-            _th(indirect_lock(&waitq->q.th)) { }
+            _th(lock_head((thread_list*)&waitq->q)) { }
         operator thread*()   { return _th; }
         thread* operator->() { return _th; }
         ~ScopedLockHead()    { if (_th) _th->lock.unlock(); }
